@@ -226,7 +226,17 @@ theorem inv_step (s : St) (o : Op) (h : Inv s) : Inv (step s o) := by
       refine ⟨hnd, hlt, hsh, hrit, { visible := true, cur := none, erased := false }, ?_, by simp [hr], by simp [hb]⟩
       simp [aRun_append, harun, aRun, aStep, hcn]
     · rw [if_neg hc]; exact ⟨hnd, hlt, hsh, hrit, a, harun, hvis, hcur⟩
-
+  | inval =>
+    simp only [step]
+    by_cases hc : s.appOn = true ∧ ¬ s.rit = true
+    · rw [if_pos hc]
+      have hr : s.rit = false := by simpa using hc.2
+      have hb : bodyId s.chain = none := by
+        rw [hr] at hrit; cases hbo : bodyId s.chain <;> simp [hbo] at hrit; rfl
+      have hcn : a.cur = none := by rw [hcur, hb]
+      refine ⟨hnd, hlt, hsh, hrit, { visible := true, cur := none, erased := false }, ?_, by simp [hr, hc.1], by simp [hb]⟩
+      simp [aRun_append, harun, aRun, aStep, hcn]
+    · rw [if_neg hc]; exact ⟨hnd, hlt, hsh, hrit, a, harun, hvis, hcur⟩
 
 /-! ### main theorems -/
 
